@@ -295,6 +295,13 @@ pub fn run(tier: Tier) -> Report {
     for t in ["proc printi", "proc int printi", "proc a int array", "proc int '\u{20ac}'", "type A = array [2] of int; proc main() { var v: array [2] of int; v[0] := 1; }", "\na"] {
         scs.push(plain(t.to_string()));
     }
+    // an edit history that killed the document task of earlier versions (stale node re-use in
+    // the incremental parser ran out of the token list after the fourth edit)
+    scs.push(Scenario {
+        text: "proc main() {\n  var i: int;\n  i := 'a' + 0x1F;\n  printi(i); // trailing\n  printc('\\n');\n}\nproc other(a: int, b: int, ref c: int) {\n  c := a * b - -a;\n  other(a, b, c);\n}".to_string(),
+        edits: vec![vec![(28, 28, "-".to_string())], vec![(130, 130, "while ".to_string())], vec![(166, 171, "// c\n".to_string())], vec![(136, 137, "+".to_string())]],
+        raw: vec![],
+    });
     run_family("nesting-ladders", scs, false, &mut fails);
     // edit histories: requests after one and two didChange notifications (incremental tree)
     let mut scs = vec![];
